@@ -23,7 +23,7 @@ CLAIMED = {
     },
     "C02": {
         "technique": "Coq proof (the copies of grow/shrink stay inside the block handed out, copy_nonoverlapping only on disjoint ranges, prefix preserved; frame from C01 disjointness) + byte-level driver checks",
-        "text": "C02_shrink_copies / C02_grow_copies / C02_frame / C02_alloc_copies_nothing / C02_dealloc_copies_nothing over a byte-memory model; the driver writes PRNG patterns into every block, re-reads every live block after every fourth operation and at the end, and logs closure call orders of the fill flavours. " + ARENA_TEXT + "Partial: value initialisation by the typed flavours is glue outside the model (driver-checked only). C02_source_frames (how lib.rs places values — one write of the initialiser's result, a copy of exactly src.len() elements, clones and fill initialisers in index order with one call per index — pinned as text and re-checked against /repo on every run).",
+        "text": "C02_shrink_copies / C02_grow_copies / C02_frame / C02_alloc_copies_nothing / C02_dealloc_copies_nothing over a byte-memory model; the driver writes PRNG patterns into every block, re-reads every live block after every fourth operation and at the end, and logs closure call orders of the fill flavours. " + ARENA_TEXT + "Partial: value initialisation by the typed flavours is glue outside the model (driver-checked only). C02_source_frames (how lib.rs places values — one write of the initialiser's result, a copy of exactly src.len() elements, clones and fill initialisers in index order with one call per index — pinned as text and re-checked against /repo on every run). C02_source_fill_loop / C02_source_try_fill_loop_is_the_same / C02_fill_calls_in_index_order (the for loops of alloc_slice_fill_with and try_alloc_slice_fill_with, translated from lib.rs on every run: the closure is asked 0..len-1 in order, once each, each result stored at dst+i before the next call; FillWalkOk.v).",
         "design_ref": "DESIGN.md §6 C02",
     },
     "C03": {
@@ -53,12 +53,12 @@ CLAIMED = {
     },
     "C11": {
         "technique": "Coq proof (rewind restores the exact pre-call finger / the fresh chunk's full capacity: same request, same address, no allocator request) + probe in the driver",
-        "text": "C11_no_run_without_space / C11_rewind_restores / C11_ok_keeps_slot; the driver follows every failed initialiser that allocated nothing by a probe request of the same layout (must be served without a global-allocator request), checks the error value byte for byte, and covers initialisers that allocate and keep / release / nest. " + ARENA_TEXT + "C11_rewind_keeps_everything_valid proves that whatever the initialiser allocated and kept stays valid across the rewind. Source tie: C11_source_entry / C11_source_exit (what alloc_try_with and try_alloc_try_with save on entry, and on an Err the two tests and the two fingers stored, parsed from lib.rs on every run and proved equal to the model's for every MIN_ALIGN) / C11_model_assembled_from_source_parts / C11_source_frames (slot reserved through (try_)alloc_with before the match; the error value read out once; try_fill releases with dealloc). Not a theorem: exactly-once delivery of the error value (driver check).",
+        "text": "C11_no_run_without_space / C11_rewind_restores / C11_ok_keeps_slot; the driver follows every failed initialiser that allocated nothing by a probe request of the same layout (must be served without a global-allocator request), checks the error value byte for byte, and covers initialisers that allocate and keep / release / nest. " + ARENA_TEXT + "C11_rewind_keeps_everything_valid proves that whatever the initialiser allocated and kept stays valid across the rewind. Source tie: C11_source_entry / C11_source_exit (what alloc_try_with and try_alloc_try_with save on entry, and on an Err the two tests and the two fingers stored, parsed from lib.rs on every run and proved equal to the model's for every MIN_ALIGN) / C11_model_assembled_from_source_parts / C11_source_frames (slot reserved through (try_)alloc_with before the match; the error value read out once; try_fill releases with dealloc). C11_source_try_fill_loop / C11_try_fill_error_releases_block_and_stops / C11_try_fill_all_ok_fills_in_order (the for loop of alloc_slice_try_fill_with translated from lib.rs on every run: the first Err at index k leaves k stores, one dealloc of the whole block and an immediate return; FillWalkOk.v). Not a theorem: exactly-once delivery of the error value (driver check).",
         "design_ref": "DESIGN.md §6 C11",
     },
     "C12": {
         "technique": "Coq proof (corollaries of the safety invariant and of the byte-memory lemmas for the Allocator entry points) + Allocator-trait driver",
-        "text": "C12_block_fits / C12_grow_keeps_prefix / C12_shrink_keeps_prefix / C12_grow_zeroed_tail / C12_err_keeps_old / C12_deallocate_any_order / C12_source_dealloc / C12_source_shrink / C12_source_grow / C12_model_assembled_from_source_parts (every branch condition, finger computation and copy length of Bump::dealloc, shrink and grow is extracted from lib.rs on every run and equals the piece of the model it stands for); every deallocate/grow/grow_zeroed/shrink in the arena histories goes through allocator_api2's Allocator on &Bump<M>, with differing old/new alignments, zero sizes, lucky alignments, several live blocks. " + ARENA_TEXT + "Partial: standard collections parameterised by the arena are not exercised.",
+        "text": "C12_block_fits / C12_grow_keeps_prefix / C12_shrink_keeps_prefix / C12_grow_zeroed_tail / C12_err_keeps_old / C12_deallocate_any_order / C12_source_dealloc / C12_source_shrink / C12_source_grow / C12_model_assembled_from_source_parts (every branch condition, finger computation and copy length of Bump::dealloc, shrink and grow is extracted from lib.rs on every run and equals the piece of the model it stands for); every deallocate/grow/grow_zeroed/shrink in the arena histories goes through allocator_api2's Allocator on &Bump<M>, with differing old/new alignments, zero sizes, lucky alignments, several live blocks. " + ARENA_TEXT + "C12_source_realloc_dispatch / C12_realloc_assembled_from_source_parts (the crate-private Alloc::realloc RawVec uses: zero-size shortcut, new layout with the old alignment, shrink or grow, parsed from lib.rs on every run; the model's realloc is assembled from those values). Partial: standard collections parameterised by the arena are not exercised.",
         "design_ref": "DESIGN.md §6 C12",
     },
     "C13": {
@@ -82,7 +82,7 @@ CLAIMED = {
     "C16": {
         "engine": "vec",
         "technique": "Coq proof (loop invariant of DrainFilter::next + permutation conservation under arbitrary panic positions; truncate with panicking destructors) + drop-ledger driver enumerating panic points",
-        "text": "C16_drain_filter_no_double_drop / C16_drain_filter_nodup / C16_truncate_panicking_drop hold for every answer script (a panic at any predicate invocation, any number of items taken by the caller). The driver panics predicates, Clone, Drop and iterators at random invocation indices and checks: no identity twice, nothing dropped reachable, exact final drop. Partial: dedup_by/resize/extend/String::retain/Box are decided on the implementation only. C16_string_retain_panic_safe (StringRetain.v: the loop of String::retain at buffer level with its length guard; for every valid text and every script of keep/delete/panic answers the string after unwinding holds exactly the characters kept so far, valid UTF-8) with C16_source_string_retain / C16_source_string_retain_frames (the guard's new length, the move test and the memmove arguments parsed from string.rs on every run; the surrounding statements pinned); the checker steps every retain with a panicking predicate through the extracted retain_run. C16_resize_clone_panic / C16_resize_clone_panic_no_double_drop (VecPanic.v: resize / extend_with when Clone panics at any call: old contents plus the clones made so far, the value dropped exactly once and unreachable); the checker steps every resize with a panicking Clone through the extracted resize_clone_panic. C16_extend_panic (extend / extend_from_slice when the iterator or Clone panics after j items: exactly those were pushed), also stepped by the checker. C16_source_truncate_loop / C16_source_truncate_loop_is_the_model (the for loop of Vec::truncate, translated from vec.rs on every run with destructors answered by a script: for every count and script it lowers the length, steps back and drops exactly as the model's truncate_loop, a panic included).",
+        "text": "C16_drain_filter_no_double_drop / C16_drain_filter_nodup / C16_truncate_panicking_drop hold for every answer script (a panic at any predicate invocation, any number of items taken by the caller). The driver panics predicates, Clone, Drop and iterators at random invocation indices and checks: no identity twice, nothing dropped reachable, exact final drop. Partial: dedup_by/resize/extend/String::retain/Box are decided on the implementation only. C16_string_retain_panic_safe (StringRetain.v: the loop of String::retain at buffer level with its length guard; for every valid text and every script of keep/delete/panic answers the string after unwinding holds exactly the characters kept so far, valid UTF-8) with C16_source_string_retain / C16_source_string_retain_frames (the guard's new length, the move test and the memmove arguments parsed from string.rs on every run; the surrounding statements pinned); the checker steps every retain with a panicking predicate through the extracted retain_run. C16_resize_clone_panic / C16_resize_clone_panic_no_double_drop (VecPanic.v: resize / extend_with when Clone panics at any call: old contents plus the clones made so far, the value dropped exactly once and unreachable); the checker steps every resize with a panicking Clone through the extracted resize_clone_panic. C16_extend_panic (extend / extend_from_slice when the iterator or Clone panics after j items: exactly those were pushed), also stepped by the checker. C16_source_truncate_loop / C16_source_truncate_loop_is_the_model (the for loop of Vec::truncate, translated from vec.rs on every run with destructors answered by a script: for every count and script it lowers the length, steps back and drops exactly as the model's truncate_loop, a panic included). C16_source_extend_with / C16_extend_with_clone_panic / C16_extend_with_trace_is_the_model (the whole body of Vec::extend_with translated on every run: store, pointer step, then the length; a panicking clone leaves exactly the clones written, the model's write_all; ExtendWalkOk.v). C16_source_drain_filter_next / C16_source_drain_filter_next_is_the_model (the while loop of DrainFilter::next translated on every run equals VecModel.df_next for every state and script; DrainFilterWalkOk.v). C16_fill_closure_panic (a panicking initialiser closure in the arena's slice fills leaves exactly the stores made so far).",
         "design_ref": "DESIGN.md §6 C16",
     },
     "C19": {
